@@ -401,6 +401,37 @@ def family (k : Kind) : List (Crs × Style) :=
    ({ sample k .usFootDec 1 with dname := 9 }, { styleOgc with unitPos := 1, projLast := true, towgsFirst := true, auth := true }),
    (sample k .foot 0, styleOgc)]                                               -- the plain layout (UNIT last)
 
+
+/-! ## registered names and named datums (second-round additions) -/
+
+/-- the aliases the property speaks of, written HERE from the property and the EPSG registry (not
+regenerated from global.go): `alias` must denote the same reference as `target` -/
+def specAliases : List (String × String) :=
+  [("WGS84", "EPSG:4326"), ("EPSG:3785", "EPSG:3857"), ("GOOGLE", "EPSG:3857"), ("EPSG:900913", "EPSG:3857"),
+   ("EPSG:102113", "EPSG:3857"), ("EPSG:4326", "WGS84"), ("EPSG:3857", "GOOGLE")]
+
+/-- `q` rounded to `scale` fractional digits (exact when `q` is such a decimal), trailing zeros dropped -/
+def ratToDec (q : Rat) (scale : Nat) : Dec :=
+  let n : Int := (q * (10 ^ scale : Nat)).floor
+  let rec strip : Nat → Int → Nat → Dec
+    | 0, m, sc => ⟨m, sc⟩
+    | f+1, m, sc => if sc > 0 && m % 10 = 0 then strip f (m / 10) (sc - 1) else ⟨m, sc⟩
+  strip scale n scale
+
+/-- A datum of the library's table used BY NAME in PROJ.4 (`+datum=key`) and SPELLED OUT in WKT
+(`DATUM["Spelled_Out_Datum",SPHEROID[a,1/f],TOWGS84[the table's terms]]`): the same datum shift said in two
+ways.  `none` when the key or its ellipsoid is not in the (regenerated) tables. -/
+def namedDatumTexts (key : String) (projected : Bool) : Option (Str × Str) := do
+  let d ← List.lookup key datumTable
+  let e ← List.lookup d.ellipse ellipsoidTable
+  let rf : Rat := if e.rf ≠ 0 then e.rf else if e.a = e.b then 0 else e.a / (e.a - e.b)
+  if rf = 0 then none else
+  let c : Crs := { sample (if projected then .tmerc else .geog) .metre 0 with
+    a := ratToDec e.a 6, rf := ratToDec rf 25, towgs := d.towgs84.map (·.map fun q => ratToDec q 12), datum := .custom, dname := 0 }
+  let p4 := joinWith [' '] ([s "+proj=" ++ (p4Kind c.kind).toList] ++ p4Params c {} ++ [s "+datum=" ++ key.toList] ++
+    (if projected then [s "+units=m"] else []) ++ [s "+no_defs"])
+  pure (p4, toWkt { c with towgs := match c.towgs with | some [] => none | x => x } {})
+
 /-! ## tolerances for the compiled code (numeric part of the property) -/
 
 /-- one micrometre, in metres -/
